@@ -574,6 +574,8 @@ func (vc *VC) evalDSL(st *State, fi *FuncInfo, fn *types.Func, call *ast.CallExp
 		return sc(vc.anyHeld(st, "RBMutex", false), SBool)
 	case name == "heldShardR":
 		return sc(vc.anyHeld(st, "RBMutex", true), SBool)
+	case name == "heldToken":
+		return sc(vc.heapGet(st, "gh.token", SBool), SBool)
 	case name == "owned":
 		x := vc.evalScalar(st, call.Args[0])
 		return sc(sel(vc.heapGet(st, "gh.owned", ArrSort(SRef, SBool)), x.T), SBool)
